@@ -16,11 +16,16 @@ type Tracer struct {
 	// Gate, if set, is called outside the tracer lock after the event was recorded;
 	// it may block to steer the schedule (rule R5).
 	Gate func(e websocket.VerifEvent)
+	// Keep, if set, selects the events that are recorded at all (sampling by connection in the big replay campaigns).
+	Keep func(e websocket.VerifEvent) bool
 }
 
 // Install makes t the process-wide sink. Call before any connection exists.
 func (t *Tracer) Install() {
 	websocket.VerifSink = func(e websocket.VerifEvent) {
+		if t.Keep != nil && !t.Keep(e) {
+			return
+		}
 		t.mu.Lock()
 		t.Events = append(t.Events, e)
 		t.mu.Unlock()
@@ -76,4 +81,38 @@ func WriteNDJSON(path string, evs []websocket.VerifEvent) error {
 		return err
 	}
 	return f.Close()
+}
+
+func bit(b bool, k uint) int64 {
+	if b {
+		return 1 << k
+	}
+	return 0
+}
+
+// LogPeerScripted tells the trace specifications that the peer of c is the harness's scripted raw
+// peer, so that every frame the library parses must be one LogPeerSent announced, in order.
+func LogPeerScripted(c *websocket.Conn) {
+	if websocket.VerifSink != nil {
+		websocket.VerifSink(websocket.VerifEvent{Conn: websocket.VerifConnID(c), Ev: "PeerScripted"})
+	}
+}
+
+// LogPeerSent records, in the tracer's global order and BEFORE the bytes are handed to the
+// transport, a frame the raw peer is about to send to c (TraceRecv.tla compares the headers the
+// library parses with these and takes Close codes from here).
+func LogPeerSent(c *websocket.Conn, f Frame) {
+	if websocket.VerifSink == nil {
+		return
+	}
+	flags := bit(f.Fin, 0) | bit(f.Rsv1, 1) | bit(f.Rsv2, 2) | bit(f.Rsv3, 3) | bit(f.Masked, 4)
+	ln := int64(len(f.Payload))
+	if f.LenOverride != nil {
+		ln = int64(*f.LenOverride)
+	}
+	var code int64
+	if f.Op == OpClose && len(f.Payload) >= 2 {
+		code = int64(f.Payload[0])<<8 | int64(f.Payload[1])
+	}
+	websocket.VerifSink(websocket.VerifEvent{Conn: websocket.VerifConnID(c), Ev: "PeerSent", A: int64(f.Op), B: flags, D: ln, E: code})
 }
